@@ -449,6 +449,7 @@ class Exchange:
                 x = round(min(red, b["remaining"]) if red else b["remaining"], 2)
                 b["cancelled"] = round(b["cancelled"] + x, 2)
                 b["remaining"] = round(b["remaining"] - x, 2)
+                b["last_cancel"] = x
                 if b["remaining"] == 0:
                     b["complete"] = True
                 changed.append(b)
